@@ -11,6 +11,12 @@ for d in seeded/*/; do
   if git -C "$WT" apply "$PWD/$d/patch.diff" 2>/dev/null; then
     out=$(VF_REPO="$WT" ./check "$prop" --tier "$TIER" --no-evidence 2>&1); rc=$?
     if [ $rc -eq 1 ] && echo "$out" | grep -q "^VIOLATION property=$prop"; then r=caught; elif [ $rc -eq 3 ]; then r=INCONCLUSIVE; else r=MISSED; fi
+    # a change whose effect belongs to another property's clause (meta.json: cross_check) is expected to be caught by that check
+    cross=$(python3 -c "import json;print(json.load(open('$d/meta.json')).get('cross_check',''))")
+    if [ "$r" = MISSED ] && [ -n "$cross" ]; then
+      out=$(VF_REPO="$WT" ./check "$cross" --tier "$TIER" --no-evidence 2>&1); rc=$?
+      if [ $rc -eq 1 ] && echo "$out" | grep -q "^VIOLATION property=$cross"; then r=caught; prop="$cross"; fi
+    fi
     echo "$id $prop $r $(echo "$out" | grep '^violation' | head -1 | cut -c11-110)"
   else
     echo "$id $prop NOAPPLY"
